@@ -1,4 +1,5 @@
 import AaVerif.Aa.ParseFile
+import AaVerif.Aa.ParseCap
 import AaVerif.Generated.AaTables
 /-!
 # C09 — rule text round-trips through the printer and the parser
@@ -114,6 +115,48 @@ example : PathHead (S "@{user_config_dirs}/app{,.d}/{a,b{c,d}}[0-9]*.conf") ∧
     Atomic (S "@{user_config_dirs}/app{,.d}/{a,b{c,d}}[0-9]*.conf") ∧ Plain (S "@{user_config_dirs}/app{,.d}/{a,b{c,d}}[0-9]*.conf") ∧
     cscan 0 (joinPad (fileToks true true true (S "@{user_config_dirs}/app{,.d}/{a,b{c,d}}[0-9]*.conf") (S "rwPx")) [0, 2, 0, 3]) = some 0 := by
   refine ⟨⟨'@', _, rfl, Or.inr rfl⟩, ?_, ?_, ?_⟩ <;> decide +kernel
+
+/-! ## Capability and network rules, symbolically (any length, every table value) -/
+
+/-- every capability name, network domain and socket type of the regenerated tables is a keyword-like
+word (no blank, quote, bracket, `#`, `,`, `=`) -/
+theorem tables_are_words :
+    (∀ n ∈ reqValues T "capability" "name", CapW n) ∧ (∀ d ∈ reqValues T "network" "domains", CapW d) ∧
+    (∀ t ∈ reqValues T "network" "type", CapW t) ∧ hasReq T "capability" "name" = true := by
+  refine ⟨?_, ?_, ?_, ?_⟩ <;> decide +kernel
+
+/-- **Capability rules of any length** (symbolic, no enumeration): for every qualifier and EVERY list of
+capability names of the table — any length, any order, repetitions included — printing the rule and
+running the library's own parser on the line (comma splitter, tokenizer, `parseRule`, qualifier loop,
+keyword dispatch, `toValues` with its in-place deletion loop) gives back one capability rule with the same
+qualifier and the same names in the canonical order of the table, duplicates removed. -/
+theorem C09_capability_all_lists (audit deny : Bool) (names : List Text)
+    (h : ∀ n ∈ names, n ∈ reqValues T "capability" "name") :
+    (parseCommaRules false (renderRule (Ref.capRule audit deny names) (padOf []) ++ S "\n")).bind (newRules T) =
+      .ok [mkRule "capability" (audit, if deny then S "deny" else []) {}
+        [.l (mergeValues T "capability" "name" names [])]] :=
+  parse_capability T audit deny names tables_are_words.2.2.2
+    (fun n hn => ⟨tables_are_words.1 n (h n hn), by simpa using h n hn⟩)
+
+example : (parseCommaRules false (renderRule (Ref.capRule true true [S "kill", S "chown", S "kill"]) (padOf []) ++ S "\n")).bind (newRules T)
+    = .ok [mkRule "capability" (true, S "deny") {} [.l [S "chown", S "kill"]]] := by
+  rw [C09_capability_all_lists true true _ (by decide +kernel)]
+  decide +kernel
+
+/-- **Network rules, the whole domain × type product** (symbolic): every qualifier, every domain and
+every socket type of the tables; the rule comes back with exactly that domain and type -/
+theorem C09_network_all (audit deny : Bool) (d t : Text)
+    (hd : d ∈ reqValues T "network" "domains") (ht : t ∈ reqValues T "network" "type") :
+    (parseCommaRules false (renderRule (Ref.netRule audit deny d t) (padOf []) ++ S "\n")).bind (newRules T) =
+      .ok [mkRule "network" (audit, if deny then S "deny" else []) {} [.s [], .s [], .s [], .s d, .s t, .s []]] := by
+  rw [parse_network T audit deny d t (tables_are_words.2.1 d hd) (tables_are_words.2.2.1 t ht)]
+  simp [netSecond, ht]
+
+/-- a second word that is neither a type nor a protocol of the tables is dropped by the parser without an
+error (the rule read back is the bare domain rule): the table membership above is needed -/
+theorem C09_network_unknown_type_dropped :
+    (parseCommaRules false (renderRule (Ref.netRule false false (S "inet") (S "streem")) (padOf []) ++ S "\n")).bind (newRules T)
+      = .ok [mkRule "network" (false, []) {} [.s [], .s [], .s [], .s (S "inet"), .s [], .s []]] := by decide +kernel
 
 /-! ## Whole-text round trips over the complete value tables
 
